@@ -118,9 +118,23 @@ package mux
 //@   ensures result == nil && len(data) % 2 != 0 ==> wlog(old(wlen()) + 8 + len(data)) == 0
 //
 // The ALPH prefix convention of frame payloads.
+// The same convention as arithmetic on the payload bytes (no code involved):
+// whether a payload carries an ALPH prefix, the length of the alpha data, the
+// length of the bitstream after it (one pad byte is skipped after an odd
+// alpha length when there is one), and the bytes the sub-chunk(s) of the
+// payload take on the wire (8-byte headers, even padding).
+//@ pure func le32b(d []byte, i int) uint32 = uint32(d[i]) | uint32(d[i+1])<<8 | uint32(d[i+2])<<16 | uint32(d[i+3])<<24
+//@ pure func hasAlph(d []byte) bool = len(d) >= 8 && d[0] == 'A' && d[1] == 'L' && d[2] == 'P' && d[3] == 'H' && 8 + int(le32b(d, 4)) <= len(d)
+//@ pure func alphLen(d []byte) int = int(le32b(d, 4))
+//@ pure func bsLen(d []byte) int = hasAlph(d) ? len(d) - 8 - alphLen(d) - ((alphLen(d) % 2 != 0 && 8 + alphLen(d) < len(d)) ? 1 : 0) : len(d)
+//@ pure func subBytes(d []byte) uint32 = (hasAlph(d) ? 8 + padded(uint32(alphLen(d))) : 0) + 8 + padded(uint32(bsLen(d)))
+//
 //@ func splitAlphaAndBitstream
 //@   property C14 C18
 //@   modifies nothing
+//@   ensures (alphaData != nil) <==> hasAlph(data)
+//@   ensures hasAlph(data) ==> len(alphaData) == alphLen(data)
+//@   ensures len(bitstream) == bsLen(data)
 //@   ensures alphaData != nil ==> len(data) >= 8 && data[0] == 'A' && data[1] == 'L' && data[2] == 'P' && data[3] == 'H'
 //@   ensures alphaData != nil ==> base(alphaData) == base(data) && offset(alphaData) == offset(data) + 8
 //@   ensures alphaData != nil ==> uint32(len(alphaData)) == uint32(data[4]) | uint32(data[5])<<8 | uint32(data[6])<<16 | uint32(data[7])<<24
@@ -133,11 +147,17 @@ package mux
 // only the extended layout allows: the simple layout is chosen only when no
 // frame has one (before the repair a still frame with an ALPH prefix was
 // written as one bogus "VP8 " chunk).
+// Wire size of the sub-chunk(s) of one frame payload.
+//@ func subChunkSize
+//@   property C14 C02
+//@   requires len(data) <= 0x3fffffff
+//@   modifies nothing
+//@   ensures result == subBytes(data)
+//
 //@ func (m *Muxer) hasAlphaChunk
 //@   property C18 C14
 //@   requires m != nil
 //@   modifies nothing
-//@   inline splitAlphaAndBitstream
 //@   loop 0: invariant forall j int :: 0 <= j && j <= rangeindex ==> splitAlphaAndBitstream(m.frames[j].data).0 == nil
 //@   ensures !result ==> forall j int :: 0 <= j && j < len(m.frames) ==> splitAlphaAndBitstream(m.frames[j].data).0 == nil
 //
@@ -169,6 +189,7 @@ package mux
 //@   property C14
 //@   requires m != nil && w != nil && len(f.data) <= 0x3fffffff
 //@   modifies nothing
+//@   ensures subSize == subBytes(f.data)
 //@   ensures result == nil ==> le32at(old(wlen())) == FourCCANMF
 //@   ensures result == nil ==> le24at(old(wlen()) + 8) == (f.opts.OffsetX/2) & 0xffffff && le24at(old(wlen()) + 11) == (f.opts.OffsetY/2) & 0xffffff
 //@   ensures result == nil && fw > 0 && fh > 0 ==> le24at(old(wlen()) + 14) == (fw-1) & 0xffffff && le24at(old(wlen()) + 17) == (fh-1) & 0xffffff
